@@ -47,6 +47,10 @@ NEEDS = {
  "C09d": "unstranded, a left node walk ending on a node traversed reversed that has terminal extensions (rc() instead of complement() moves the bits to the wrong nibble)",
  "C09e": "a node walk that returns to its own seed (circle, already-compressed circular node, odd-k hairpin): the seed is taken out of the available set after the walk",
  "C03d": "max_path on a graph with a cycle through the best-scoring node (the last node of the right walk is never marked used)",
+ "C20a": "a circular self-link (right end into own left end): the right-edge loop of node_to_gfa lists it a second time (target >= id)",
+ "C20b": "a later node whose right extension leaves the graph (shard graph / boundary extensions): counted as 'has links' by num_exts_r although it writes none -> trailing comma",
+ "C20c": "a left-side link (to an equal or higher id, a left hairpin, a circular self-link): the sign is derived from the strand flip, inverted for left edges",
+ "C05c": "at least two bucket passes and a k-mer whose bucket equals a pass boundary: collected in two passes (`<=` instead of `<`)",
  "C19a": "finish_serial() and a node of more than K bases (the right index is built from first k-mers)",
  "C08c": "rc == true and a caller-supplied non-identity permutation (the rc operand of the score loses its permutation lookup)",
  "C03e": "remove_censored_exts with stranded == true (the target is always canonicalised)",
